@@ -487,12 +487,7 @@ func parseRESP(r *bufio.Reader) ([][]byte, error) {
 		if line == "" {
 			return nil, nil
 		}
-		fields := strings.Fields(line)
-		out := make([][]byte, len(fields))
-		for i, f := range fields {
-			out[i] = []byte(f)
-		}
-		return out, nil
+		return splitInline(line), nil
 	}
 }
 
@@ -528,6 +523,35 @@ func readLine(r *bufio.Reader) (string, error) {
 		return "", fmt.Errorf("invalid line terminator")
 	}
 	return line[:len(line)-2], nil
+}
+
+// splitInline splits an inline command at ASCII blanks only. strings.Fields
+// would also split at Unicode white space inside an argument (U+00A0,
+// U+2003 ...), which Redis treats as ordinary bytes.
+func splitInline(line string) [][]byte {
+	blank := func(c byte) bool {
+		return c == ' ' || c == '\t' || c == '\r' || c == '\n' || c == '\v' || c == '\f'
+	}
+	n := 0
+	for i := 0; i < len(line); i++ {
+		if !blank(line[i]) && (i == 0 || blank(line[i-1])) {
+			n++
+		}
+	}
+	out := make([][]byte, 0, n)
+	for i := 0; i < len(line); {
+		if blank(line[i]) {
+			i++
+			continue
+		}
+		j := i
+		for j < len(line) && !blank(line[j]) {
+			j++
+		}
+		out = append(out, []byte(line[i:j]))
+		i = j
+	}
+	return out
 }
 
 func expectCRLF(r *bufio.Reader) error {
